@@ -178,12 +178,19 @@ def history(fontc, chk, i, a, b):
     shared = os.path.join(wd, "shared.build")
     outa, outb, outc = (os.path.join(wd, n) for n in ("a.ttf", "b.ttf", "c.ttf"))
     env = common.fontc_env(threads=4)
+    trace = os.path.join(wd, "trace.jsonl")
     ra = common.run([fontc, a, "-o", outa, "--build-dir", shared, "--emit-ir"], env=env, timeout=600)
-    rb = common.run([fontc, b, "-o", outb, "--build-dir", shared, "--emit-ir"], env=env, timeout=600)
+    # every other history leaves the second font where the build puts it by default (<build dir>/font.ttf, the file the
+    # persistence layer itself writes) instead of naming an output; the second build's persisted items are read back too
+    default_out = i % 2 == 1
+    if default_out:
+        outb = os.path.join(shared, "font.ttf")
+    rb = common.run([fontc, b, "--build-dir", shared, "--emit-ir"] + ([] if default_out else ["-o", outb]), env=common.fontc_env(threads=4, trace=trace), timeout=600)
     rc = common.run([fontc, b, "-o", outc, "--build-dir", os.path.join(wd, "clean.build")], env=env, timeout=600)
+    persists, wfiles = analyse_trace(trace) if os.path.exists(trace) else ([], [])
     return {"i": i, "a": a, "b": b, "rc": (ra.rc, rb.rc, rc.rc), "timed_out": ra.timed_out or rb.timed_out or rc.timed_out, "wd": wd,
             "sha": tuple(common.sha256_file(p) if r.rc == 0 and os.path.exists(p) else None for p, r in ((outb, rb), (outc, rc))),
-            "fonts": (outb, outc), "stderr": rb.stderr[-400:]}
+            "fonts": (outb, outc), "stderr": rb.stderr[-400:], "persists": persists, "wfiles": wfiles, "default_out": default_out}
 
 
 def rel_of(p):
@@ -252,6 +259,9 @@ def run(tier):
             chk.inconc({"history": (ra, rb), "why": f"rc {res['rc']}"})
         else:
             hist_stats["histories_conclusive"] += 1
+            hist_stats["histories_with_default_output"] = hist_stats.get("histories_with_default_output", 0) + (1 if res["default_out"] else 0)
+            if res["rc"][1] == 0:
+                judge_trace(chk, f"{rb} (into the build dir left by {ra})", res["persists"], res["wfiles"], stats, {"history": [res["a"], res["b"]]})
             if res["sha"][0] != res["sha"][1]:
                 diff = table_diff(*res["fonts"]) if all(res["sha"]) else ["<stale build failed>"]
                 chk.violation(f"stale-build-dir:{rb}", f"building {rb} with --emit-ir into the build dir left by {ra} gives rc {res['rc'][1]} / different font than a clean build; tables differing {diff}; {res['stderr'][-200:]}",
